@@ -151,6 +151,8 @@ func cmdCheck(args []string) int {
 	}
 	var results []*FuncResult
 	var undecided []string
+	var extra []*Obligation
+	var lemmaGaps []string
 	var selected []*Obligation
 	var orphans []string
 	var engineErrors []string
@@ -186,6 +188,13 @@ func cmdCheck(args []string) int {
 				fr2 := verifyRefine(prog, fi, own, ic, opts)
 				results = append(results, fr2)
 				for _, o := range fr2.Obls {
+					if !o.Smoke && (contains(pf.Skip, baseName(o.Name)) || contains(pf.Skip, skipKey(o))) {
+						undecided = append(undecided, baseName(o.Name)+" -- "+o.Desc)
+						if *tier == "thorough" {
+							extra = append(extra, o)
+						}
+						continue
+					}
 					selected = append(selected, o)
 				}
 				for _, s := range fr2.SpecErrors {
@@ -199,7 +208,18 @@ func cmdCheck(args []string) int {
 		for _, l := range fr.UsedLemmas {
 			if !listed[l] {
 				listed[l] = true
-				todo = append(todo, PropFunc{F: l})
+				lf := PropFunc{F: l}
+				if ls := specs["_lemmas"]; ls != nil {
+					for _, x := range ls.Functions {
+						if x.F == l {
+							lf = x
+						}
+					}
+				}
+				if len(lf.Skip) > 0 {
+					lemmaGaps = append(lemmaGaps, l)
+				}
+				todo = append(todo, lf)
 			}
 		}
 		results = append(results, fr)
@@ -221,8 +241,11 @@ func cmdCheck(args []string) int {
 			if len(pf.Tags) > 0 && (o.Kind == "post" || o.Kind == "inv") && !contains(pf.Tags, tagName(o.Tag)) {
 				continue
 			}
-			if contains(pf.Skip, baseName(o.Name)) {
-				undecided = append(undecided, baseName(o.Name))
+			if !o.Smoke && (contains(pf.Skip, baseName(o.Name)) || contains(pf.Skip, skipKey(o))) {
+				undecided = append(undecided, baseName(o.Name)+" -- "+o.Desc)
+				if *tier == "thorough" {
+					extra = append(extra, o) // attempted with the long budget, reported, never a violation
+				}
 				continue
 			}
 			selected = append(selected, o)
@@ -251,6 +274,15 @@ func cmdCheck(args []string) int {
 		o2.Budget = opts.Budget * 3
 		o2.Jobs = 4
 		discharge(stragglers, &o2)
+	}
+	extraDone := 0
+	if len(extra) > 0 {
+		discharge(extra, opts)
+		for _, o := range extra {
+			if o.Res.Status == "unsat" {
+				extraDone++
+			}
+		}
 	}
 	// classify
 	type failure struct {
@@ -400,6 +432,9 @@ func cmdCheck(args []string) int {
 		"signed int/int64 arithmetic is treated as mathematical (no overflow obligation); sized unsigned and int8/16/32 arithmetic is exact modulo 2^N",
 		"Go semantics of the supported subset as implemented by rvc (evaluation order, append growth as 'some capacity >= needed', copy as memmove, zero values); allocation never fails other than through the make# obligation",
 		"SMT solvers z3 5.1.0 / z3 4.8.12 / cvc5 1.0 are trusted; an unsat from any one of them is accepted")
+	for _, l := range lemmaGaps {
+		assumptions = append(assumptions, "lemma used as a premise although part of its own proof is undecided (listed under coverage.undecided_excluded): "+l)
+	}
 	for _, t := range trustedContracts {
 		assumptions = append(assumptions, "assumed contract (body not verified): "+t)
 	}
@@ -436,6 +471,7 @@ func cmdCheck(args []string) int {
 		"vacuity":                  map[string]interface{}{"smoke_checked": smokeChecked, "smoke_false_derivable": smokeUnsat},
 		"orphan_contracts":         orphans,
 		"undecided_excluded":       undecided,
+		"undecided_attempted":      map[string]int{"attempted": len(extra), "discharged_this_run": extraDone},
 		"inlined_uncontracted":     inlined,
 		"known_findings_seen":      knownList,
 		"engine_errors":            engineErrors,
@@ -464,6 +500,10 @@ func cmdCheck(args []string) int {
 	}
 	return exit
 }
+
+// skipKey identifies an obligation independently of ordinals: function, kind and description (source text of the
+// clause or of the checked expression).
+func skipKey(o *Obligation) string { return o.Func + "/" + o.Kind + "|" + o.Desc }
 
 func funcList(ps *PropSpec) []string {
 	var out []string
